@@ -164,6 +164,15 @@ public:
     // the checkpoint without its generators (a copy of the base class object, as a program that only
     // archives results keeps it) written and read back: empty string if the text is reproduced
     virtual std::string base_roundtrip() const = 0;
+    // the user's program keeps a checkpoint object and copy-assigns a later one over it
+    virtual bool assign_from(IWorld const& other) = 0;
+    // the user's program redoes the last iteration by hand: keeps the state it was drawn with, rolls the
+    // checkpoint back by one, calls the public *_iteration function itself and add()s the result
+    virtual bool redo_last_by_hand(Plan const& p, u64 calls, RunCtl const& ctl) = 0;
+    // a multi-channel run on a checkpoint class of the user's own (fixed channel weights, built on
+    // chkpt_with_rng<E, chkpt<multi_channel_result<T>>>) with the built-in callback in all four modes:
+    // empty string if all modes return the same results without an exception
+    virtual std::string user_chkpt_modes(Plan const& p, std::vector<u64> const& calls, RunCtl const& ctl) = 0;
 
     // public serial *_iteration on the state recorded in result k and the generator stored before
     // iteration k, with `calls` calls (C04 oracle)
